@@ -109,6 +109,30 @@ func c18Case(w *core.W, in []byte, entry string) {
 		return
 	}
 	acc := err == nil
+	// the verdict does not depend on which method is asked first: an outer scanner asks for
+	// the length before anything else, a converter for the AST
+	for _, first := range []string{"Len", "GetAST"} {
+		rs2 := jregex.New("re", in)
+		var err2 error
+		if rec, site := guard(func() {
+			switch first {
+			case "Len":
+				rs2.Len()
+			case "GetAST":
+				rs2.GetAST()
+			case "Example":
+				rs2.Example()
+			}
+			err2 = rs2.Check()
+		}); rec != nil {
+			w.Violate(bv("no-panic", entry, in, fmt.Sprintf("%s then Check panicked: %v", first, rec), map[string]string{"site": site}))
+			return
+		}
+		if (err2 == nil) != acc {
+			w.Violate(bv("verdict-independent-of-call-order", entry, in, fmt.Sprintf("Check() alone: accepted=%v (%s); after %s() on a fresh object: accepted=%v (%s)", acc, errStr(err), first, err2 == nil, errStr(err2)), map[string]string{"first": first}))
+			return
+		}
+	}
 	if acc != want {
 		kind := "other"
 		if end == 1 {
